@@ -190,7 +190,7 @@ def frame_copies(R, P, fns):
             n += 1
             R.check(ok, "TRACK", "frames-copied-fit-the-record:line%d" % nd.get("loc", [0])[0], where(f, nd), "the frames copied into the new stack record fit its frames_per_stack slots (%d states)" % cnt,
                     "s_alloc_tracer_track copies more frames into a new stack record than it was allocated for (%s): with frames_per_stack = 1 and a capture that yields only the tracer's own 2 frames the copy runs 8 bytes past the heap block" % det)
-    R.require(n >= 2, "s_alloc_tracer_track: only %d copies into a stack record analysed (confirmed by reading: 2)" % n)
+    R.require(n >= 1, "s_alloc_tracer_track: no copy into a stack record analysed (confirmed by reading: 2, or 1 shared by both branches)")
 
 
 def dispatch(R, P):
@@ -284,9 +284,22 @@ def vtable(R, fns):
         R.check(sz == size_expr, "VTABLE", "%s:tracks-requested-size" % name, where(f, t), "tracked size is %s" % size_expr, "tracked size is %s, expected %s" % (sz, size_expr))
         for r in f.returns():
             rv = f.show(r.node["a"][0]) if r.node["a"] else None
-            R.check(pv is not None and rv == pv["n"], "VTABLE", "%s:returns-wrapped-pointer" % name, where(f, r), "returns the wrapped allocator's pointer")
-        # tracked whenever non-NULL: the only guard on track is the pointer test
-        gs = [RU.cmp_norm(f, c, p) for c, p, b in RU.guards(f, t)]
+            okr = pv is not None and rv == pv["n"]
+            if not okr and pv is not None and r.node["a"] and f.is_const(RU.uncast(f, r.node["a"][0])) == 0:
+                # `return NULL` on the branch where the wrapped allocator's pointer is NULL: the same value
+                gr = [RU.cmp_norm(f, c_, p_) for c_, p_, b_ in RU.guards(f, r)]
+                okr = any(g_ and g_[2] is None and g_[1] == "==" and f.show(RU.uncast(f, g_[0])) == pv["n"] for g_ in gr)
+            R.check(okr, "VTABLE", "%s:returns-wrapped-pointer" % name, where(f, r), "returns the wrapped allocator's pointer")
+        # tracked whenever non-NULL: the only guard on track is the pointer test (a test whose other branch aborts - an
+        # assertion - does not skip anything)
+        def aborts(b_, pol_):
+            from sa.cfg import edges as _e
+            for s_, c_, p_ in _e(f, b_):
+                if p_ is (not pol_):
+                    blk = f.blocks[s_]
+                    return blk.noreturn or any(el["k"] == "call" and (el.get("callee") or "") in ("aws_fatal_assert", "abort") for el in blk.elems)
+            return False
+        gs = [RU.cmp_norm(f, c, p) for c, p, b in RU.guards(f, t) if not aborts(b, p)]
         okg = all(g and g[2] is None and g[1] == "!=" and f.show(g[0]) == (pv or {}).get("n") for g in gs)
         R.check(okg, "VTABLE", "%s:tracked-on-every-success" % name, where(f, t), "every successful allocation is tracked", "tracking is skipped under an extra condition: %s" % [f.show(c) for c, p, b in RU.guards(f, t)])
     # release
